@@ -938,7 +938,6 @@ func exploreNatives(p *Prog, l *Ledger) []*InterpModel {
 	return out
 }
 
-
 // loopNamer gives the unbounded loops of a scenario stable names: loop1, loop2 … in source order.
 func loopNamer(g *Graph) func(site string) string {
 	type lp struct{ site, pos string }
